@@ -564,3 +564,144 @@ func ruleServeHTTP(w *World, r *Run, ruleB, ruleC, ruleE string) {
 
 func tBytesType() types.Type { return types.NewSlice(types.Typ[types.Byte]) }
 func tErrorType() types.Type { return types.Universe.Lookup("error").Type() }
+
+
+// aliasOf: t shares its backing array with base (base itself or a reslice of it).
+func aliasOf(t, base *Term) bool {
+	for t != nil {
+		if t == base {
+			return true
+		}
+		if t.Kind != "slice" || len(t.Args) == 0 {
+			return false
+		}
+		t = t.Args[0]
+	}
+	return false
+}
+
+// writesThrough lists the events of a path that can write into the backing array of base: element stores, copy into it,
+// append/Append* onto a reslice of it (the spare capacity of a shrunk slice is the original's own bytes).
+func writesThrough(s Summary, base *Term) []Event {
+	var out []Event
+	for _, ev := range s.Events {
+		switch {
+		case ev.Kind == "store" && ev.Recv != nil && ev.Recv.Kind == "indexaddr" && aliasOf(ev.Recv.Args[0], base):
+			out = append(out, ev)
+		case ev.Kind == "call" && ev.Callee == "builtin:copy" && len(ev.Args) > 0 && aliasOf(ev.Args[0], base):
+			out = append(out, ev)
+		case ev.Kind == "call" && strings.Contains(ev.Callee[strings.LastIndex(ev.Callee, ".")+1:], "Append") && len(ev.Args) > 0 && ev.Args[0] != nil && ev.Args[0] != base && aliasOf(ev.Args[0], base):
+			out = append(out, ev)
+		case ev.Kind == "call":
+			hit := false
+			for _, a := range ev.Args {
+				if a == nil {
+					continue
+				}
+				anySub(a, func(x *Term) bool {
+					if x.Kind == "append" && len(x.Args) > 0 && x.Args[0] != base && aliasOf(x.Args[0], base) {
+						hit = true
+					}
+					return false
+				})
+			}
+			if hit {
+				out = append(out, ev)
+			}
+		}
+	}
+	return out
+}
+
+// tainted: t is computed from src other than by looking a configured value up with it.
+func tainted(t, src *Term) bool {
+	if t == nil {
+		return false
+	}
+	if t == src {
+		return true
+	}
+	if t.Kind == "lookup" {
+		return false
+	}
+	for _, a := range t.Args {
+		if tainted(a, src) {
+			return true
+		}
+	}
+	return false
+}
+
+// ruleEndpointHygiene (C03.e / C10.c / C19.d): on every composed endpoint path the bytes the witness returned are never
+// written through (with the in-memory store they are the stored checkpoint itself), and metric labels never carry request
+// bytes (the Prometheus factory panics on a label that is not valid UTF-8; request-chosen labels are unbounded).
+func ruleEndpointHygiene(w *World, r *Run, rule string) {
+	a := analyseUpdate(w, r)
+	if !a.guard(r, rule) {
+		return
+	}
+	nInc := 0
+	cleanAlias, cleanLabel := true, true
+	for _, o := range updateOutcomes(a) {
+		ep, ok := endpointUnder(w, r, rule, o)
+		if !ok {
+			return
+		}
+		trusted := ep.eng.stub[cFeederUpdate][0]
+		for _, s := range ep.sums {
+			if trusted.Kind == "stubval" {
+				for _, ev := range writesThrough(s, trusted) {
+					cleanAlias = false
+					r.Fail(rule, fnServeHTTP+" | checkpoint bytes returned by the witness are not modified in place", w.pos(ev.Pos), "the endpoint writes into the buffer of the checkpoint the witness returned ("+short(ev.Callee)+" on "+short(fmt.Sprint(ev.Args))+"): with the in-memory store that buffer is the stored checkpoint, so a refused request changes the witness's state")
+				}
+			}
+			pb := calls(s, fnParseBody)
+			for _, inc := range calls(s, cInc) {
+				nInc++
+				for _, pe := range pb {
+					for _, l := range inc.Args {
+						if l != nil && (tainted(l, pe.Res) || tainted(l, res(pe, 0)) || tainted(l, res(pe, 1)) || tainted(l, res(pe, 2))) {
+							cleanLabel = false
+							r.Fail(rule, fnServeHTTP+" | metric labels are constants, configured values or the peer address, never request bytes", w.pos(inc.Pos), "a counter is labelled with a value computed from the request body ("+short(l.String())+"): a label that is not valid UTF-8 makes the Prometheus counter panic before the request is answered, and request-chosen labels are unbounded")
+						}
+					}
+				}
+			}
+		}
+	}
+	if cleanAlias {
+		r.Pass(rule, fnServeHTTP+" | checkpoint bytes returned by the witness are not modified in place", "", "")
+	}
+	if cleanLabel {
+		r.Check(nInc >= 3, rule, fnServeHTTP+" | metric labels are constants, configured values or the peer address, never request bytes", "", fmt.Sprintf("vacuity floor: only %d counter increments seen on the endpoint's paths", nInc))
+	}
+}
+
+// C07.g: a failing outcome of Update is never answered 200 by the endpoint.
+func ruleNoFalseSuccessAtEndpoint(w *World, r *Run, a *updAnalysis, rule string) {
+	if !a.guard(r, rule) {
+		return
+	}
+	n := 0
+	for _, o := range updateOutcomes(a) {
+		if o.err == "nil" {
+			continue
+		}
+		ep, ok := endpointUnder(w, r, rule, o)
+		if !ok {
+			return
+		}
+		for _, s := range ep.sums {
+			if len(calls(s, cFeederUpdate)) == 0 {
+				continue
+			}
+			n++
+			st, isConst := statusOf(s)
+			key := fmt.Sprintf("%s | Update failing with (%s, %s bytes) is not answered 200", fnServeHTTP, shortGlobal(o.err), o.bytes)
+			r.Check(isConst && st != "200", rule, key, w.pos(s.RetPos), "an update that the witness refused or could not store is answered "+st+" by the endpoint (false success); path: "+pathString(ep.eng, s))
+		}
+	}
+	if n == 0 {
+		r.Undecided(rule, fnServeHTTP, "", "no failing outcome of Update reaches the endpoint analysis")
+	}
+}
